@@ -121,14 +121,15 @@ Proof.
          | [] => Ok (TObj (fold_left (fun a kt => kv_insert (norm (fst kt)) (snd kt) a) acc []) [])
          | kv :: l' =>
              do t <- json_implied_type norm (snd kv);
-             match lookup (fst kv) acc with
+             let k := norm (fst kv) in
+             match lookup k acc with
              | Some t0 => if ty_equals t0 t then go l' acc else Err OtherError
-             | None => go l' (kv_insert (fst kv) t acc)
+             | None => go l' (kv_insert k t acc)
              end
          end) m acc <> Panic); [|apply G].
     induction IH as [|kv l Hx _ IHl]; intros acc; [discriminate|].
-    apply bind_no_panic; [exact Hx|]. intros t.
-    destruct (lookup (fst kv) acc); [destruct (ty_equals t0 t); [apply IHl|discriminate]|apply IHl].
+    apply bind_no_panic; [exact Hx|]. intros t. cbv zeta.
+    destruct (lookup (norm (fst kv)) acc); [destruct (ty_equals t0 t); [apply IHl|discriminate]|apply IHl].
 Qed.
 
 (* ---------- the value decoders ---------- *)
